@@ -6,6 +6,7 @@ Exploration: states generated in the scope of the property are installed in the 
 API; for each state several queries aimed at it are sent to `GET /allocation_candidates` and evaluated by the
 compiled Lean enumerator on the dump of the real tables; the two SETS of (allocations, mappings) must be equal.
 Every disagreement is a violation of the property on the real code (the enumerator is the property)."""
+from harness import ppool
 import copy
 import hashlib
 import itertools
@@ -574,7 +575,7 @@ def run_cases(chk, n_states, nq, p_old, procs=None):
     seeds = [chk.seed * 1000003 + i for i in range(n_states)]
     errors = []
     pairs = {}
-    with ctx.Pool(procs, initializer=cands.init_worker) as pool:
+    with ppool.Pool(ctx, procs, initializer=cands.init_worker) as pool:
         for res in pool.imap_unordered(case, [(s, nq, p_old) for s in seeds], chunksize=4):
             if 'error' in res:
                 errors.append(res['error'])
@@ -609,7 +610,7 @@ def run_cases(chk, n_states, nq, p_old, procs=None):
 
 def run(chk):
     if not getattr(chk, 'no_lean', False):
-        chk.lean_stage(META['lean_module'], exe=True)
+        chk.lean_stage([META['lean_module'], 'Placement.Props.C03Merge'], exe=True)
     if chk.tier == 'quick':
         n_states, nq = 1600, 4
     else:
